@@ -689,6 +689,46 @@ fn random_run(rng: &mut Rng, prof: &Profile, sink: &mut Sink<AdsrEngine>) {
     }
     let mut gate = false;
     let mut last_state = State::AtRest;
+    // long-running blocks (where narrow counters wrap), in a small share of the runs
+    if rng.chance(0.02) {
+        match rng.below(3) {
+            0 => {
+                // a power-of-two-ish number of complete short notes
+                let n = rng.near_pow2(false);
+                let k = rng.range(1, 3) as u32;
+                for _ in 0..n {
+                    t.push(Ev::GateOn);
+                    t.push(Ev::Tick(k));
+                    t.push(Ev::GateOff);
+                    t.push(Ev::Tick(k));
+                }
+            }
+            1 => {
+                // a long idle stretch in sustain, then the release
+                t.push(Ev::GateOn);
+                let need = (t.exec().nominal_ticks(State::Attack) + t.exec().nominal_ticks(State::Decay)) as u64 + 8;
+                if need < 200_000 {
+                    t.push(Ev::Tick(need as u32));
+                    t.push(Ev::Tick(65_536 + rng.below(16) as u32));
+                    t.push(Ev::GateOff);
+                }
+            }
+            _ => {
+                // the panel task writing the same or alternating settings many times between two ticks
+                t.push(Ev::GateOn);
+                t.push(Ev::Tick(rng.range(1, 4) as u32));
+                let n = rng.near_pow2(false);
+                let a = gen_time(rng, fs, n_target, false);
+                let b = gen_time(rng, fs, n_target, false);
+                let w = *rng.pick(&[0u8, 1, 3]);
+                for i in 0..n {
+                    t.push(Ev::Set(w, if i % 2 == 0 { a } else { b }.to_bits()));
+                }
+            }
+        }
+    }
+    let budget = budget + t.ctx.steps;
+    let max_events = max_events + t.evs.len();
     while !t.dead && t.ctx.steps < budget && t.evs.len() < max_events {
         let st = t.exec().state();
         let changed = st != last_state;
